@@ -14,6 +14,7 @@
 
 #include "strerror_override.h"
 
+#include <ctype.h>
 #include <limits.h>
 #include <stdarg.h>
 #include <stddef.h>
@@ -263,7 +264,7 @@ int json_parse_uint64(const char *buf, uint64_t *retval)
 	uint64_t val;
 
 	errno = 0;
-	while (*buf == ' ')
+	while (isspace((unsigned char)*buf))
 		buf++;
 	if (*buf == '-')
 		return 1; /* error: uint cannot be negative */
